@@ -55,6 +55,17 @@ func (w *World) applyUntrustedRaw(p []string) (bool, bool) {
 			hm.AddBlockHeader(&hd)
 			hd2 := core.MakeHeader(*hd.BlockHash(), 79, 779, bitcoin.Hash32{3})
 			hm.AddBlockHeader(&hd2)
+		case "lowfork": // an old block of our chain (far below the tip) followed by a long linked fork that ends above the tip
+			if tipH < 40 {
+				return true, false
+			}
+			addBest(tipH-30, tipH-30)
+			prev := w.Tree.blocks[w.Best[tipH-30]].hash
+			for i := 0; i < 34; i++ {
+				hd := core.MakeHeader(prev, tipH-29+i, uint32(7000+i), bitcoin.Hash32{byte(i), 0x77})
+				hm.AddBlockHeader(&hd)
+				prev = *hd.BlockHash()
+			}
 		case "orphan": // linked headers of the branch the trusted peer abandoned in its last reorganisation, ending at the old tip
 			if len(w.Abandoned) < 4 {
 				return true, false
@@ -135,6 +146,19 @@ func (w *World) applyUntrustedRaw(p []string) (bool, bool) {
 				}
 				msg.AddTransaction(&c)
 			}
+		case "real": // the genuine body of an outstanding (or just delivered) request, relayed by the untrusted peer
+			target := w.Best[len(w.Best)-1]
+			if w.P != nil {
+				for _, r := range w.P.pending {
+					if r.kind == "block" {
+						if n, ok := w.Tree.byHash[r.hash]; ok {
+							target = n
+							break
+						}
+					}
+				}
+			}
+			msg = w.Tree.blocks[target].msg
 		case "orphan": // a valid block on an unknown parent
 			msg = core.MakeBlock(bitcoin.Hash32{0xac}, 50, 5050, nil)
 		}
@@ -178,6 +202,7 @@ type trustedObs struct {
 	Safe      []string
 	Converged bool
 	Timeouts  bool // convergence needed the node's request time-outs (a stall until then)
+	Buffered  int64 // buffered-block-bytes counter of the request state after the drain (nothing is buffered then)
 	New       []string // txids delivered as new (informational: untrusted peers may add unconfirmed txs)
 }
 
@@ -186,6 +211,9 @@ func (w *World) observeTrusted(converged bool) trustedObs {
 	var o trustedObs
 	o.Converged = converged
 	o.Timeouts = w.drainTimeouts
+	if f, ok := core.Field(w.Node, "state", "pendingBlockSize"); ok && f.CanInt() {
+		o.Buffered = f.Int()
+	}
 	tip := w.Node.LastHeight(ctx)
 	for h := 0; h <= tip; h++ {
 		x, err := w.Node.Hash(ctx, h)
@@ -332,6 +360,9 @@ func c12Compare(p histParams, hist []string) (string, []string, []core.Violation
 	if obs.Converged && ref.Converged && obs.Timeouts && !ref.Timeouts {
 		fail("syncing-not-stalled", "untrusted traffic stalled the node until a request time-out fired (involving "+lastU+")", "with the untrusted events the node only reached the trusted peer's tip after its 60 s / 600 s request time-outs forced a reconnect; without them it followed at once")
 	}
+	if obs.Converged && ref.Converged && obs.Buffered != ref.Buffered {
+		fail("syncing-not-stalled", "untrusted traffic leaves the buffered-block-bytes counter off (it pauses block requests above 100 MB) (involving "+lastU+")", fmt.Sprintf("after the drain nothing is buffered; counter with untrusted events: %d, without: %d", obs.Buffered, ref.Buffered))
+	}
 	if fmt.Sprint(obs.Chain) != fmt.Sprint(ref.Chain) || obs.Converged != ref.Converged {
 		fail("chain-unaffected", "final chain differs with untrusted traffic (involving "+lastU+")", fmt.Sprintf("with untrusted events: chain %v converged=%v; without: chain %v converged=%v", obs.Chain, obs.Converged, ref.Chain, ref.Converged))
 	} else if fmt.Sprint(obs.Headers) != fmt.Sprint(ref.Headers) {
@@ -365,12 +396,12 @@ func c12Scenarios() []histParams {
 	cfg.InitialChain, cfg.StartHeight = 12, 10
 	// second scenario: one level deeper over the events around an outstanding / delivered-but-unprocessed block
 	// request and a verified untrusted peer's transactions
-	focus := []string{"ext:1", "ans", "tick:250", "tick:2300", "restart", "uh:good", "uinv:R3", "utx:R3", "uxtx:R3", "inv:T:R3", "ublock:fake", "uxblock:fake"}
+	focus := []string{"ext:1", "ans", "tick:250", "tick:2300", "restart", "uh:good", "uinv:R3", "utx:R3", "uxtx:R3", "inv:T:R3", "ublock:fake", "uxblock:fake", "ublock:real"}
 	// third scenario: the trusted peer reorganises across the 1000-header file boundary; an untrusted peer
 	// that is still on the abandoned branch must not pass the same-chain proof
 	deep := txCfg(1)
 	deep.InitialChain, deep.StartHeight = 1002, 995
-	fork := []string{"reorg+:5:6", "uh:orphan", "uh:good", "utx:R3", "tick:2300"}
+	fork := []string{"reorg+:5:6", "uh:orphan", "uh:lowfork", "uh:good", "utx:R3", "tick:2300"}
 	return []histParams{{Prop: "C12", Cfg: cfg, Boot: "synced", Events: ev, Tx: true},
 		{Prop: "C12", Cfg: cfg, Boot: "synced", Events: focus, Tx: true, ExtraDepth: 1},
 		{Prop: "C12", Cfg: deep, Boot: "synced", Events: fork, Tx: true}}
